@@ -40,6 +40,9 @@ func init() {
 			{ID: "C07-R5", Title: "VM-level caches are filled only after the fallible work succeeded", Floor: 1, Run: c07r5},
 			{ID: "C07-R16", Title: "references shared with clones are not written through", Floor: 3, Run: cloneAliasesNotWrittenThrough},
 			{ID: "C07-R17", Title: "the halt flag is cleared on every successful start (shared with C18)", Floor: 1, Run: haltClearedOnEveryStart},
+			{ID: "C07-R18", Title: "Run resumes at the saved ip only for code that is still loaded", Floor: 1, Run: savedIPBelongsToLoadedCode},
+			{ID: "C07-R19", Title: "the stack pointer is advanced only after the slot was written (it always indexes the array)", Floor: 1, Run: spStaysInRange},
+			{ID: "C07-R20", Title: "a failed start leaves the VM stopped", Floor: 1, Run: failedStartLeavesVMStopped},
 		},
 	})
 }
